@@ -11,8 +11,106 @@ import json
 from tools import common
 from checks import legal_common as lc
 from checks import c11_order
+from checks import circuit_sequences as cs
 
 LEVEL = "proof"
+
+# ---- sequence stream: Circuit::legalize on an object WITH A HISTORY whose public state is a legal row-high placement ----
+# (harness/circseq.cpp, SP cases, generator "r"; checks/circuit_sequences.py).  The hypotheses of c11_legalize_float_order_fixpoint
+# (Properties_C11.v) are evaluated on the PUBLIC state the object has right before a legalize step: rowhigh_design (std_design of
+# legal_common + every movable cell exactly one row high), legal (proved checker legalb, tag LC of the main driver), polarity_admits
+# (a NW / SE cell stands on a row of a matching orientation), order_params_ok (orderingWidth in [0,1], |orderingY| <= 2,
+# |orderingHeight| <= 4), coords_small (|x|, |y|, placed width, placed height of the movable cells < 2^20: the property's quantifier).
+# Conclusion: the call returns normally and x, y of EVERY cell are what they were (orientations may become the prescribed ones).
+SMALL = 1 << 20
+NW_ROWS, SE_ROWS = (0, 4, 2, 6), (1, 5, 3, 7)      # cellOrientationInRow: NW admits N FN W FW, SE admits S FS E FW
+
+
+def fixpoint_domain(state, args):
+    """None when (state, legalize arguments) satisfies every hypothesis of the fixpoint theorem except `legal` (checked with legalb
+    by the caller), else the reason"""
+    d = lc.std_design(state)
+    if d is not None:
+        return d
+    rows = lc.rows_of(state)
+    cells, _ = lc.cells_of(state)
+    mov = [c for c in cells if not c[6]]
+    if not rows or not mov:
+        return "no row or no movable cell"
+    rh = rows[0][3] - rows[0][2]
+    for c in mov:
+        pw, ph = (c[3], c[2]) if c[4] in lc.TURNED else (c[2], c[3])
+        if ph != rh:
+            return "movable cell that is not exactly one row high"
+        if max(abs(c[0]), abs(c[1]), pw, ph) >= SMALL:
+            return "coordinate of a movable cell >= 2^20"
+        if c[5] in (3, 4):
+            for r in rows:
+                if r[2] == c[1] and r[0] <= c[0] < r[1] and r[4] not in (NW_ROWS if c[5] == 3 else SE_ROWS):
+                    return "cell with polarity NW / SE standing on a row its polarity does not admit"
+    effort, custom, ow, oy, oh = args[:5]
+    if custom and not (0 <= ow <= 10 and abs(oy) <= 20 and abs(oh) <= 40):
+        return "ordering parameters outside orderingWidth in [0,1], |orderingY| <= 2, |orderingHeight| <= 4 (F10, F23)"
+    return None
+
+
+def sequence_stream(ctx, seed, count, extra_cases=()):
+    precs, anomalies, stats = cs.run_placement_sequences(seed, count, extra_cases, gen="r")
+    res = {"stats": stats, "anomalies": anomalies, "moved": [], "legalize_steps": 0, "in_domain": 0, "legal_before": 0,
+           "legal_before_with_history": 0, "legal_before_after_an_edit_following_a_stage": 0, "distinct": set(), "fresh_moved": 0,
+           "cases": sorted(set(r.case for r in precs))[:2], "outside": {}}
+    driver = common.build_driver()
+    cand, linp = [], []
+    seen, edited = {}, {}
+    for r in precs:
+        first = r.case not in seen
+        hist = (not first) and r.step > seen[r.case] + 1        # an earlier placement call AND at least one step in between
+        seen[r.case] = r.step
+        if r.op != 16:
+            continue
+        res["legalize_steps"] += 1
+        why = fixpoint_domain(r.state, r.args)
+        if why is not None:
+            res["outside"][why[:60]] = res["outside"].get(why[:60], 0) + 1
+            continue
+        res["in_domain"] += 1
+        cells, _ = lc.cells_of(r.state)
+        orig = [v for c in cells for v in (c[0], c[1], c[4])]
+        cand.append((r, orig, not first, hist))
+        linp.append("LC " + " ".join(r.state) + " " + " ".join(str(v) for v in orig))
+    lout, _, _ = common.run_both([driver], None, linp)
+    for (r, orig, later, hist), o in zip(cand, lout):
+        if o.split()[:1] != ["1"]:
+            continue
+        res["legal_before"] += 1
+        res["legal_before_with_history"] += later
+        res["legal_before_after_an_edit_following_a_stage"] += hist
+        res["distinct"].add((" ".join(r.state), tuple(r.args)))
+        for who, out in (("the object with its history", r.mine), ("a fresh circuit with the same public state", r.fresh)):
+            kind, pl = lc.parse_outcome(out)
+            xy = lambda v: [t for i, t in enumerate(v) if i % 3 != 2]
+            if kind != "OK" or pl is None or xy(pl) != xy(orig):
+                if who.startswith("a fresh"):
+                    res["fresh_moved"] += 1
+                    if any(m[0] is r for m in res["moved"]):
+                        continue
+                res["moved"].append((r, "Circuit::legalize called on %s, whose public state is a legal placement of a row-high design, %s"
+                                     % (who, "moved a cell" if kind == "OK" else "failed (%s)" % kind)))
+    return res
+
+
+def seq_detail(r, why):
+    return {"case": r.case, "format": "see harness/circseq.cpp header (SP)", "after_step": r.step, "steps_so_far": cs.steps_text(r.case, r.step),
+            "public_state_before_the_call (legal, legalb = true)": "LG " + " ".join(r.state), "legalize_arguments (effort custom ow10 oy10 oh10)": r.args,
+            "implementation_output": r.mine, "fresh_circuit_with_the_same_state": r.fresh, "why": why}
+
+
+def seq_summary(res):
+    d = dict(res["stats"])
+    d.update({k: res[k] for k in ("legalize_steps", "in_domain", "legal_before", "legal_before_with_history",
+                                  "legal_before_after_an_edit_following_a_stage", "fresh_moved", "outside")})
+    d.update({"distinct_legal_states_legalized": len(res["distinct"]), "moved_or_failed": len(res["moved"]), "steps_not_run_through": len(res["anomalies"])})
+    return d
 
 
 def order_inverts_row(ctoks, pl, order):
